@@ -267,14 +267,16 @@ func runPerm(c *checker) string {
 
 		var qr []qres
 
-		if err := asUser(uid, gid, func() { qr = oraclePass(c.R, c.u) }); err != nil {
+		qs := c.u.plainQueries()
+
+		if err := asUser(uid, gid, func() { qr = oraclePass(c.R, qs) }); err != nil {
 			return "asUser: " + err.Error()
 		}
 
 		which, mode := permLabel(es)
 		c.extra = map[string]string{"user": "nonadmin", "mode": mode, "restricted": which}
 
-		c.checkTree(es, ops, qr, []string{"MemFS"}, view)
+		c.checkTree(es, ops, qs, qr, []string{"MemFS"}, view)
 		c.st.TreesDone = append(c.st.TreesDone, i)
 
 		if i < 3 {
